@@ -356,7 +356,7 @@ def _pi_eval_loop(ctx, cls, col):
     conv_name = None
     for s in h.ast.body:
         if isinstance(s, ast.Assign) and len(s.targets) == 1 and isinstance(s.targets[0], ast.Name):
-            if isinstance(s.value, ast.Call) and isinstance(s.value.func, ast.Attribute) and is_self_attr(s.value.func, "_convergence_test_fn"):
+            if isinstance(s.value, ast.Call) and isinstance(s.value.func, ast.Attribute) and is_self_attr(s.value.func, _measure_attr(ctx)):
                 conv_name = s.targets[0].id
     if conv_name is None:
         col.add("R8.3", construct, owner.module.relpath, p.lineno, False,
@@ -464,12 +464,20 @@ def _measure(ctx, cls, col):
                 + f" [convergence_test={ct_}]", text=f"measure [{ct_}]")
 
 
+def _measure_attr(ctx) -> str:
+    """the data attribute holding the convergence measure function: the one ValueIteration._iteration_step calls"""
+    from .common import one_data_attr
+    if "measure_attr" not in ctx.cache:
+        ctx.cache["measure_attr"] = one_data_attr(ctx, ctx.ct.get("ValueIteration"), "_iteration_step", "call", "convergence measure function")
+    return ctx.cache["measure_attr"]
+
+
 def _pi_measure(ctx, cls, col):
     """conv = self._convergence_test_fn(new_values, values) with new_values the kernel result of `values`."""
     owner, fn = ctx.ct.require(cls, "_evaluate_policy")
     for ct_ in CONV_TESTS:
         I = solver_interp(ctx, cls, ct_)
-        f = I.attrs.get("_convergence_test_fn")
+        f = I.attrs.get(_measure_attr(ctx))
         new, old = S("NEW"), S("OLD")
         I.axes["NEW"] = ("state",)
         I.axes["OLD"] = ("state",)
@@ -492,7 +500,7 @@ def _pi_measure(ctx, cls, col):
                 if is_self_attr(s.value.func, "_calculate_policy_values") and len(s.value.args) == 2 and isinstance(s.targets[0], ast.Name):
                     newname = s.targets[0].id
                     valname = ast.unparse(s.value.args[1])
-                if is_self_attr(s.value.func, "_convergence_test_fn") and newname:
+                if is_self_attr(s.value.func, _measure_attr(ctx)) and newname:
                     a = [ast.unparse(x) for x in s.value.args]
                     okops = a == [newname, valname]
                     why = f"measure operands {a}, expected [{newname}, {valname}]"
